@@ -46,7 +46,10 @@ CLAIMS = {
              "evidence, not as a violation. With the real constants, long runs (17000 inserts in one freeze, drawing-touched glyphs, survivors "
              "after thaw, a table-filling run, tombstone build-up and whole-table dump) are validated against the "
              "abstract spec, and pixman_composite_glyphs[_no_mask] against the fold of Composite32 the statement "
-             "names (a1/a8/a8r8g8b8 glyphs, off-image positions, clips, many operators). Every call that could spin "
+             "names (random cases with a1/a8/a8r8g8b8 glyphs, off-image positions, clips, many operators; and "
+             "systematically every glyph format with alpha -- a8 a1 a4 x4a4, the 32-bit channel orders, sRGB, 10-bit, "
+             "16/8/4-bit ARGB/ABGR, rgba_float -- x OVER/ADD/SRC/IN_REVERSE, every such mask format x operator, and "
+             "glyph format x mask format). Every call that could spin "
              "is guarded by alarm(): a hang becomes a Crash event no action explains.",
         ref="5 C17"),
 }
@@ -305,6 +308,58 @@ def draw_script(rng, name, ncases):
     return out
 
 
+# glyph formats (indices of drv_glyph.c's fmt_code table): every format with an alpha channel that pixman offers for
+# a glyph image -- a8 a1 a4 x4a4, the four 32-bit channel orders, sRGB, 10-bit, 16-bit, 8-bit, 4-bit ARGB/ABGR,
+# rgba_float -- plus two without alpha; mask formats for pixman_composite_glyphs likewise
+GLYPH_FMTS = [1, 0, 5, 20, 2, 6, 7, 8, 9, 10, 14, 11, 16, 12, 17, 15, 18, 13, 3, 19]
+MASK_FMTS = [1, 0, 5, 20, 2, 6, 7, 8, 9, 10, 14, 11, 16, 12, 17, 15, 18, 13, 3]
+FMT_OPS = [3, 12, 1, 6]            # OVER, ADD, SRC, IN_REVERSE
+
+
+def g_line(rng, mode, op, mfmt, glyphs, dfmt=None, clip=False):
+    dfmt = dfmt if dfmt is not None else rng.choice([2, 2, 3, 4, 1])
+    dw, dh = rng.randint(10, 20), rng.randint(6, 10)
+    clips = []
+    if clip:
+        x1, y1 = rng.randint(0, dw // 2), rng.randint(0, dh // 2)
+        clips = [x1, y1, x1 + rng.randint(2, dw), y1 + rng.randint(2, dh)]
+    skind = rng.choice([0, 0, 1, 4])
+    sw, sh = (dw + 16, dh + 16) if rng.random() < 0.5 else (rng.randint(1, 8), rng.randint(1, 8))
+    vals = [mode, op, dfmt, dw, dh, rng.getrandbits(40), len(clips) // 4] + clips + \
+           [skind, rng.choice([0, 1, 2, 3]), sw, sh, rng.getrandbits(40), rng.randint(0, 4), rng.randint(0, 4),
+            rng.randint(-2, 2), rng.randint(-2, 2), rng.randint(-2, 3), rng.randint(-2, 3),
+            rng.randint(6, 22), rng.randint(4, 11), mfmt, len(glyphs)]
+    for k in glyphs:
+        vals += [k, rng.randint(-3, dw - 2), rng.randint(-3, dh - 2)]
+    return "G " + " ".join(map(str, vals))
+
+
+def format_script(rng, name):
+    """the drawing half, systematic over glyph formats x operators (no_mask), mask formats x operators and
+       glyph format x mask format (through a mask); colour channels differ from alpha (random pixels)"""
+    nk = len(GLYPH_FMTS)
+    out = ["R %s" % name, "F"]
+    for k, f in enumerate(GLYPH_FMTS, 1):
+        out.append("I %d %d %d %d %d %d %d" % (k, rng.randint(-3, 4), rng.randint(-3, 4), f, rng.randint(3, 8),
+                                                rng.randint(2, 6), rng.getrandbits(40)))
+    for k in range(1, nk + 1):
+        for op in FMT_OPS:
+            out.append(g_line(rng, 0, op, 1, [k, k], clip=rng.random() < 0.3))
+    for m in MASK_FMTS:
+        for op in FMT_OPS:
+            ks = rng.sample(range(1, nk + 1), 3)
+            if m in GLYPH_FMTS:
+                ks.append(GLYPH_FMTS.index(m) + 1)
+            out.append(g_line(rng, 1, op, m, ks, clip=rng.random() < 0.3))
+    i = 0
+    for k in range(1, nk + 1):
+        for m in MASK_FMTS:
+            out.append(g_line(rng, 1, FMT_OPS[i % 4], m, [k, k]))
+            i += 1
+    out.append("T")
+    return out, nk
+
+
 # ------------------------------------------------------------------------------------------
 
 def run_driver(exe, script_lines, path):
@@ -466,6 +521,13 @@ def run(prop, args):
         traces_abs.append(run_driver(exe_p, [kl] + lines, os.path.join(wd, "d%d.ndjson" % i)))
     vf.log("C17: %d small-table executions, %d long/drawing traces recorded (%.0fs)"
            % (chk.extra["executions_small_table"], len(traces_abs), time.time() - chk.t0))
+    for i in range(1 if quick else 4):
+        lines, nkf = format_script(rng, "fmt%d" % i)
+        klf = key_line([-1] * nkf)
+        reg("fmt%d" % i, lines[1:], klf, "plain", "GlyphMapTrace")
+        traces_abs.append(run_driver(exe_p, [klf] + lines, os.path.join(wd, "f%d.ndjson" % i)))
+    chk.extra["glyph_formats_drawn"] = len(GLYPH_FMTS)
+    chk.extra["mask_formats_drawn"] = len(MASK_FMTS)
     for t in traces_small + traces_abs:
         count_small(chk, t)
     chk.sample({"script_lines": scripts["fill0"][:12]})
